@@ -277,7 +277,7 @@ class CFG:
                     stack.append(m)
         return seen
 
-    def reachable_with_flags(self, start: Iterable[int], labels_excluded: Iterable[str] = ()) -> set[int]:
+    def reachable_with_flags(self, start: Iterable[int], labels_excluded: Iterable[str] = (), blocked: Iterable[int] = ()) -> set[int]:
         """Like reachable(), but remembers locals that were last assigned a literal constant and takes only the feasible edge of a
         test that reads nothing but such a local (`if ok:`, `if not ok:`, `if err is None:`, `if status == 0:`).  Enough to follow
         a status flag set in an exception handler to the return it selects."""
@@ -288,11 +288,17 @@ class CFG:
                 r = truth(test.operand, env)
                 return None if r is None else not r
             if isinstance(test, ast.Name) and test.id in env:
-                return bool(env[test.id])
+                return None if env[test.id] == "<not-None>" else bool(env[test.id])
             if isinstance(test, ast.Compare) and len(test.ops) == 1 and isinstance(test.left, ast.Name) and test.left.id in env \
                     and isinstance(test.comparators[0], ast.Constant):
                 a, b = env[test.left.id], test.comparators[0].value
                 op = test.ops[0]
+                if a == "<not-None>":
+                    if b is None and isinstance(op, (ast.Is, ast.Eq)):
+                        return False
+                    if b is None and isinstance(op, (ast.IsNot, ast.NotEq)):
+                        return True
+                    return None
                 if isinstance(op, ast.Is):
                     return a is b if (a is None or b is None or isinstance(a, bool) or isinstance(b, bool)) else a == b
                 if isinstance(op, ast.IsNot):
@@ -305,10 +311,11 @@ class CFG:
 
         seen: set[tuple[int, tuple]] = set()
         out: set[int] = set()
-        stack: list[tuple[int, tuple]] = [(s_, ()) for s_ in start]
+        blk = set(blocked)
+        stack: list[tuple[int, tuple]] = [(s_, ()) for s_ in start if s_ not in blk]
         while stack:
             n, envt = stack.pop()
-            if (n, envt) in seen:
+            if (n, envt) in seen or n in blk:
                 continue
             seen.add((n, envt))
             out.add(n)
@@ -324,6 +331,10 @@ class CFG:
                 if isinstance(a, ast.Assign) and len(a.targets) == 1 and isinstance(a.targets[0], ast.Name):
                     if isinstance(a.value, ast.Constant):
                         env[a.targets[0].id] = a.value.value
+                    elif isinstance(a.value, ast.Name) and a.value.id in env:
+                        env[a.targets[0].id] = env[a.value.id]
+                    elif isinstance(a.value, ast.JoinedStr) or (isinstance(a.value, ast.Call) and isinstance(a.value.func, ast.Name) and a.value.func.id in ("str", "repr", "format")):
+                        env[a.targets[0].id] = "<not-None>"  # a string built here: its truth is unknown, but it is not None
                     else:
                         env.pop(a.targets[0].id, None)
                 elif isinstance(a, (ast.AugAssign, ast.AnnAssign)) and isinstance(a.target, ast.Name):
